@@ -228,7 +228,11 @@ def gen_world(rng, tier):
         for _ in range(ncalls):
             c = gen_call(r, cfg, hid, pool)
             ops.append(c)
-            if r.random() < 0.3 and "z" not in c["cols"]:
+            if r.random() < 0.4 and "z" not in c["cols"]:
+                if c["na_mode"] != "none" and r.random() < 0.6:
+                    # start the macro from a complete frame
+                    c["na_mode"] = "none"
+                    c["cols"]["x"]["values"] = gen_values(r, c["dtype"], len(c["g"]), c["g"], "none")
                 # macro: the caller keeps the helper objects and applies them to the next frame of
                 # the same type whose missing-value pattern differs (state remembered by a helper
                 # closure from the previous frame must not matter)
